@@ -154,16 +154,18 @@ def main():
                                    "bound": "menu product entries %d..%d of %d" % (lo, hi - 1, n_all)}))
     # (2) the same obligation with the real runner under CrossHair's tracing (0.25 s per path): the primary-ZID prefix (.zo
     #     and .zoq) and the bare continuation line
-    wstep = 1 if thorough else 4
+    #     (always over the QUICK sub-menus: with the full menus a condition has ~2,300 traced paths and does not finish;
+    #     the full product is family (1)'s)
+    wstep = 2 if thorough else 4
     for pre, zqs in ((4, ("0", "1")), (len(m.PREFIXES) - 1, ("0",))):
         for lo in range(0, len(m.WORDS), wstep):
             for zq in zqs:
                 conds.append(xh.Cond(H, "action", timeout=T,
-                                     env=dict(env0, XH_PREFIX=pre, XH_W1="%d-%d" % (lo, lo + wstep), XH_ZOQ=zq),
+                                     env=dict(env0, XH_MENUS="quick", XH_PREFIX=pre, XH_W1="%d-%d" % (lo, lo + wstep), XH_ZOQ=zq),
                                      meta={"variant": "prefix%d-w1[%d:%d]-zoq%s" % (pre, lo, lo + wstep, zq), "family": "action",
                                            "bound": "traced; prefix %r, first word in %r, %s page" % (
                                                m.PREFIXES[pre], m.WORDS[lo:lo + wstep], ".zoq" if zq == "1" else ".zo")}))
-    conds.append(xh.Cond(H, "action", timeout=30, twin=True, env=dict(env0, XH_PREFIX=4, XH_W1="0-4", XH_ZOQ="0"),
+    conds.append(xh.Cond(H, "action", timeout=30, twin=True, env=dict(env0, XH_MENUS="quick", XH_PREFIX=4, XH_W1="0-4", XH_ZOQ="0"),
                          meta={"variant": "prefix4-w1[0:4]-zoq0", "family": "twin"}))
     conds.append(xh.Cond(H, "action_n", timeout=30, twin=True, env=dict(env0, XH_N="100-150"), meta={"variant": "n[100:150]", "family": "twin"}))
     results = xh.run_all(conds)
